@@ -189,6 +189,9 @@ def _state_step(P, ks, a, op, none0, conc):
             check_tree(t2, cl_d, dict(P, impl=dst), m2, is_set, what + ', then one operation', c, sizes=False)
             # the source is untouched by all this
             check_tree(t, cl_s, dict(P, impl=src), m, is_set, 'original after its state was read', c, sizes=False)
+        # a second __setstate__ on an already loaded, non-empty node replaces its state completely (nothing of the
+        # old state - contents, successor link - survives); every node of a fresh clone in turn, in both implementations
+        reload_nodes(t, cl_s, src, is_set, nc, m, P, ctx)
         # copy.copy goes through __reduce__/__getstate__/__setstate__
         try:
             t3 = copy.copy(t)
@@ -201,6 +204,60 @@ def _state_step(P, ks, a, op, none0, conc):
         fail('after the same follow-up operation on the same loaded state the serialized states of the C and the Python container differ',
              dict(ctx, op=op), sorted((k_, v_ == post[('c', 'c')]) for k_, v_ in post.items()))
     witness(P, conc, none0, is_set, ctx)
+
+
+def graph_nodes(node, cl, is_set, out, seen):
+    if node is None or id(node) in seen:
+        return
+    seen.add(id(node))
+    out.append(node)
+    st = node.__getstate__()
+    if is_leaf(node, cl):
+        if len(st) == 2:
+            graph_nodes(st[1], cl, is_set, out, seen)
+        return
+    if st is None or len(st) == 1:
+        return
+    for i, x in enumerate(st[0]):
+        if not i % 2:
+            graph_nodes(x, cl, is_set, out, seen)
+    graph_nodes(st[1], cl, is_set, out, seen)
+
+
+def reload_nodes(t, cl, impl, is_set, nc, m, P, ctx):
+    c = dict(ctx, src=impl, dst=impl, via='reload')
+    try:
+        r = clone(t, cl, cl, is_set, {})
+        st = r.__getstate__()
+        r.__setstate__(st)
+    except Exception as e:          # noqa
+        fail('a second __setstate__ with the container\'s own state raised %s' % type(e).__name__, c)
+        return
+    check_tree(r, cl, dict(P, impl=impl), m, is_set, 'container reloaded with its own state', c, sizes=False)
+    if P.get('stored'):
+        shapes.tag_all(r)
+    if norm(r, cl, is_set, {}) != nc and not ctx['embedded_nonroot']:
+        fail('container reloaded with its own state: state differs from the original state', c)
+    nodes = []
+    graph_nodes(r, cl, is_set, nodes, set())
+    for n in reversed(nodes):
+        try:
+            if is_leaf(n, cl):
+                items = n.__getstate__()[0]
+                half = items[:(1 if is_set else 2)]
+                n.__setstate__((half,))
+                got = n.__getstate__()
+                ok = len(got) == 1 and len(got[0]) == len(half) and all(x is y for x, y in zip(got[0], half)) \
+                    and len(n) == 1 if half else len(n) == 0
+            else:
+                n.__setstate__(None)
+                ok = n.__getstate__() is None and len(n) == 0 and not list(n.keys())
+        except Exception as e:      # noqa
+            fail('__setstate__ on a loaded node raised %s' % type(e).__name__, dict(c, leaf=is_leaf(n, cl)))
+            continue
+        if not ok:
+            fail('__setstate__ on a loaded, non-empty node: parts of the previous state survive (__getstate__ does not return the state just set)',
+                 dict(c, leaf=is_leaf(n, cl)))
 
 
 def witness(P, conc, none0, is_set, ctx):
